@@ -106,6 +106,7 @@ type fx struct {
 	curCallee   *ssa.CallCommon
 	keepAllRegs []region
 	keepAllInit  bool
+	ensuresEvaluated map[int]bool // ensures clauses evaluated at some return (a clause over locals in scope at no return is vacuous)
 	pcOverride   string // guard used by assume instead of curPC (lazily resolved frames)
 	pcOverrideOn bool
 	pendingGhostMods map[string]bool // ghost memories the callee being applied may change
